@@ -25,7 +25,9 @@ import (
 //
 //	sorted-after     every effect of body on state outside the loop is `s = append(s, …)` (or `s[i] = …`-free) on
 //	                 slice variables s, and for each such s a later statement of fn (after the loop, at any nesting)
-//	                 calls sort.Slice / sort.SliceStable / sort.Strings / sort.Sort / sort.Stable / slices.Sort* on s
+//	                 calls sort.Slice / sort.SliceStable / sort.Strings / sort.Sort / sort.Stable / slices.Sort* on s,
+//	                 AND no statement between the end of the loop and that first sort call mentions s or the bare
+//	                 variable s is a field of (`f(b)` while `b.S` is unsorted) - see usedBeforeSorted
 //	keyed-write      every effect of body is an assignment / delete / op-assignment on a map or slice element or a
 //	                 field of it, `m[k]…`, whose index k is (an expression of) the loop's own KEY variable — distinct
 //	                 iterations touch distinct elements, so the effects commute — or a set insert `m[k] = true|struct{}{}`
@@ -74,6 +76,7 @@ type classifier struct {
 	local map[types.Object]bool
 	keyV  types.Object
 	valV  types.Object
+	win   string // see window()
 }
 
 func (c *classifier) obj(id *ast.Ident) types.Object {
@@ -403,26 +406,162 @@ func (c *classifier) renderPerElement(call *ast.CallExpr) bool {
 
 // sortedAfter: is there, after the loop inside fn, a call sort.X(<name> …) / slices.SortX(<name> …)?
 func (c *classifier) sortedAfter(name string) bool {
-	found := false
+	return c.firstSort(name) != token.NoPos
+}
+
+// window: the source text from the end of the loop to the end of the last "first sort call" of the slices the loop
+// appends to - the stretch in which collected slices still are in map-iteration order. It is part of the site's
+// hash, so a `reviewed` site is re-opened when a statement is moved into / out of that stretch or a sort key changes.
+func (c *classifier) window(names map[string]bool) string {
+	end := token.NoPos
+	for n := range names {
+		if call := c.firstSortCall(n); call != nil && call.End() > end {
+			end = call.End()
+		}
+	}
+	if end == token.NoPos {
+		return ""
+	}
+	f := c.fset.File(c.loop.End())
+	src, err := os.ReadFile(f.Name())
+	if err != nil {
+		return "unreadable"
+	}
+	return string(src[f.Offset(c.loop.End()):f.Offset(end)])
+}
+
+func mrIsSortCall(fset *token.FileSet, call *ast.CallExpr) bool {
+	fs := mrNodeStr(fset, call.Fun)
+	return strings.HasPrefix(fs, "sort.") || strings.HasPrefix(fs, "slices.Sort")
+}
+
+// firstSort: position of the first sort call on <name> after the loop (NoPos: none)
+func (c *classifier) firstSort(name string) token.Pos {
+	if call := c.firstSortCall(name); call != nil {
+		return call.Pos()
+	}
+	return token.NoPos
+}
+
+func (c *classifier) firstSortCall(name string) *ast.CallExpr {
+	var first *ast.CallExpr
 	ast.Inspect(c.fn, func(n ast.Node) bool {
 		call, ok := n.(*ast.CallExpr)
 		if !ok || call.Pos() < c.loop.End() || len(call.Args) == 0 {
 			return true
 		}
-		fs := mrNodeStr(c.fset, call.Fun)
-		if strings.HasPrefix(fs, "sort.") || strings.HasPrefix(fs, "slices.Sort") {
+		if mrIsSortCall(c.fset, call) {
 			a := mrNodeStr(c.fset, call.Args[0])
-			if a == name || strings.HasSuffix(a, "("+name+")") {
-				found = true
+			if (a == name || strings.HasSuffix(a, "("+name+")")) && (first == nil || call.Pos() < first.Pos()) {
+				first = call
 			}
 		}
 		return true
 	})
-	return found
+	return first
+}
+
+// usedBeforeSorted: the collected slice <name> (`s` or `b.S`) still is in map-iteration order between the end of
+// the loop and its first sort call. Any statement in between that can see it lets the order through: a mention of
+// <name> itself, or of the bare variable it hangs off (`f(b)`, `b.M()`, `x := b`) - other fields of that variable
+// (`b.Other`) do not count, nor do further `<name> = append(<name>, …)` statements and sort calls (on this or a sibling
+// slice). Returns a description of the first such use, or "".
+func (c *classifier) usedBeforeSorted(name string) string {
+	sortPos := c.firstSort(name)
+	if sortPos == token.NoPos {
+		return ""
+	}
+	var nameExpr ast.Expr
+	ast.Inspect(c.loop.Body, func(n ast.Node) bool {
+		if e, ok := n.(ast.Expr); ok && nameExpr == nil && mrNodeStr(c.fset, e) == name {
+			if _, isCall := e.(*ast.CallExpr); !isCall {
+				nameExpr = e
+			}
+		}
+		return nameExpr == nil
+	})
+	if nameExpr == nil {
+		return ""
+	}
+	root := mrRootIdent(nameExpr)
+	if root == nil {
+		return ""
+	}
+	rootObj := c.obj(root)
+	use := ""
+	var stack []ast.Node
+	ast.Inspect(c.fn, func(n ast.Node) bool {
+		if n == nil {
+			stack = stack[:len(stack)-1]
+			return true
+		}
+		stack = append(stack, n)
+		if use != "" || n.End() <= c.loop.End() || n.Pos() >= sortPos {
+			return use == "" && n.End() > c.loop.End()
+		}
+		if n.Pos() < c.loop.End() {
+			return true // a node that contains the loop (enclosing block): descend
+		}
+		switch x := n.(type) {
+		case *ast.CallExpr:
+			if mrIsSortCall(c.fset, x) {
+				return false
+			}
+		case *ast.AssignStmt:
+			// <name> = append(<name>, …): still collecting
+			if len(x.Lhs) == 1 && len(x.Rhs) == 1 && mrNodeStr(c.fset, x.Lhs[0]) == name {
+				if call, ok := x.Rhs[0].(*ast.CallExpr); ok && mrNodeStr(c.fset, call.Fun) == "append" && len(call.Args) > 0 && mrNodeStr(c.fset, call.Args[0]) == name {
+					return false
+				}
+			}
+		case *ast.Ident:
+			if rootObj == nil || c.obj(x) != rootObj {
+				return true
+			}
+			// climb to the outermost selector / index chain this identifier is the root of
+			var chain ast.Expr = x
+			for i := len(stack) - 2; i >= 0; i-- {
+				switch p := stack[i].(type) {
+				case *ast.SelectorExpr:
+					if p.X == chain {
+						chain = p
+						continue
+					}
+				case *ast.IndexExpr:
+					if p.X == chain {
+						chain = p
+						continue
+					}
+				case *ast.ParenExpr:
+					chain = p
+					continue
+				case *ast.StarExpr:
+					chain = p
+					continue
+				}
+				break
+			}
+			cs := mrNodeStr(c.fset, chain)
+			bare := cs == root.Name
+			same := cs == name || strings.HasPrefix(cs, name+"[") || strings.HasPrefix(cs, name+".")
+			if se, isSel := chain.(*ast.SelectorExpr); isSel && !same && se.X == ast.Expr(x) {
+				// a method of the bare variable (`b.M()`) sees everything; a field read (`b.Other`) does not
+				if sel := c.info.Selections[se]; sel != nil && sel.Kind() == types.MethodVal {
+					bare = true
+				}
+			}
+			if bare || same {
+				use = fmt.Sprintf("%s at line %d", cs, c.fset.Position(x.Pos()).Line)
+			}
+		}
+		return true
+	})
+	return use
 }
 
 func (c *classifier) classify() (string, string, bool) {
 	ef := c.collect(c.loop.Body)
+	c.win = c.window(ef.appendTo)
 	errPath := ef.errReturns > 0 || ef.errAssign > 0
 	if len(ef.other) == 0 && ef.breaks == 0 {
 		nonErrReturns := ef.returns - ef.errReturns
@@ -440,6 +579,11 @@ func (c *classifier) classify() (string, string, bool) {
 				}
 				sort.Strings(names)
 				sort.Strings(unsorted)
+				for _, n := range names {
+					if u := c.usedBeforeSorted(n); u != "" {
+						return "order-sensitive", fmt.Sprintf("appends to %s, which is sorted later in the function but used BEFORE that sort while still in map-iteration order (%s)", n, u), errPath
+					}
+				}
 				if len(unsorted) == 0 {
 					return "sorted-after", fmt.Sprintf("appends to %s, sorted later in the function; %d keyed writes, %d accumulations", strings.Join(names, ","), ef.keyed, ef.acc), errPath
 				}
@@ -539,6 +683,9 @@ func extractMapRanges(repo string) (string, error) {
 				}
 				class, ev, errPath := c.classify()
 				h := sha256.Sum256([]byte(mrNodeStr(pkg.Fset, rs)))
+				if c.win != "" {
+					h = sha256.Sum256([]byte(mrNodeStr(pkg.Fset, rs) + "\n// until sorted:\n" + c.win))
+				}
 				s := mrSite{File: rel, Func: fnName, Expr: mrNodeStr(pkg.Fset, rs.X), Line: pkg.Fset.Position(rs.Pos()).Line,
 					Class: class, Evidence: ev, Hash: fmt.Sprintf("%x", h[:8]), ErrorPath: errPath}
 				if class == "order-sensitive" {
